@@ -14,11 +14,17 @@
         offsets = integral_regression(crops, gv, gv)
         refined = rough.clone(); refined[valid_idx] += offsets; reshape(B, C, 2)
 
-   x and y are computed independently (finding F2).  The flag `fixed` switches
-   to the proposed repair /verif/proposed_fixes/C07_F2.diff, where y is the first
+   In the PINNED tree (before fix 4dd71e5) x and y were computed independently (finding
+   F2): that is `fixed = false`, kept as the record of the historic defect.  The CURRENT
+   tree (/repo HEAD, fix 4dd71e5 = proposed_fixes/C07_F2.diff applied) takes y as the first
    row attaining the maximum *within the chosen column*
-   (torch.gather(max_indices_y, 3, max_indices_x)).  torch.max(dim) returns the
-   first index among ties (relied upon; re-checked by the harness on every run). *)
+   (torch.gather(max_indices_y, 3, max_indices_x)): `fixed = true`.  The harness detects
+   which variant the code has by replaying the F2 witness.  torch.max(dim) returns the
+   first index among ties (relied upon; re-checked by the harness on every run).
+
+   `thr` is the threshold AS THE CODE COMPARES IT (`max_values < threshold` is evaluated in
+   the tensor's dtype): the caller's Python float rounded to the map's dtype — see the end
+   of C06/Peaks.v; the harness passes that exact rational. *)
 From Coq Require Import String Ascii List ZArith QArith Bool Arith.
 From SV Require Import Base.Render C06.Peaks.
 Import ListNotations.
@@ -181,11 +187,24 @@ Definition selector_F2 (m : cmap) : bool :=
   | _, _ => false
   end.
 
+(* ---- selector of finding F25 (round 4): the p x p refinement patch around the rough peak
+        (x, y) sticks out of the map, i.e. some cell within radius p/2 of it (the cells a
+        p-patch reads, both parities) does not exist.  crop_bboxes / kornia fill such cells
+        with 0, which is not what a symmetric or Gaussian bump continues with: clauses
+        (f) and (g) of the property fail there.  Inside (selector false) they are theorems. *)
+Definition patch_inside (m : cmap) (y x p : nat) : bool :=
+  let r := (p / 2)%nat in
+  (r <=? y)%nat && (r <=? x)%nat && (y + r <? length m)%nat && (x + r <? width m)%nat.
+Definition selector_F25 (m : cmap) (y x p : nat) : bool := negb (patch_inside m y x p).
+
 (* ---- harness interface ---- *)
 Inductive case :=
 | GPeaks (fixed : bool) (cms : list (list cmap)) (thr : Q) (refine : option nat)
 | GSelF2 (ms : list cmap)
-| GPeaksP (fixed : bool) (cms : list (list cmap)) (thr : Q) (refine : option nat).
+| GPeaksP (fixed : bool) (cms : list (list cmap)) (thr : Q) (refine : option nat)
+  (* the selectors that are premises of the (e), (f), (g) theorems, at given cells (m, y, x, p) *)
+| GSelF9 (qs : list (cmap * (nat * nat * nat)))
+| GSelF25 (qs : list (cmap * (nat * nat * nat))).
 
 Inductive result :=
 | RPeaks (l : list (list gpoint))
@@ -196,6 +215,8 @@ Definition run (c : case) : result :=
   | GPeaks f cms thr rf => RPeaks (global_peaks f cms thr rf)
   | GSelF2 ms => RBools (map selector_F2 ms)
   | GPeaksP f cms thr rf => RPeaks (global_peaks_p f cms thr rf)
+  | GSelF9 qs => RBools (map (fun q => let '(m, (y, x, p)) := q in selector_F9_p m y x p) qs)
+  | GSelF25 qs => RBools (map (fun q => let '(m, (y, x, p)) := q in selector_F25 m y x p) qs)
   end.
 
 Definition rresult (r : result) : rdr :=
